@@ -2,7 +2,7 @@ SPECIFICATION Spec
 CONSTANTS
   Sizes = {0, 1, 10}
   Bounds = {0, 1, 5, 9, 10, 11}
-  BadKinds = {1, 2, 3, 4, 5}
+  BadKinds = {1, 2, 3, 4, 5, 6, 7, 8, 9, 10, 11}
   MaxSpecs = 2
   FrontEnds = {"direct"}
   Variant = "rfc"
